@@ -44,7 +44,7 @@ type Rec struct {
 
 var c30Names = []string{"a", "b", "B", "ab", "", " a", "zz", "é", "a'b", "x\"y"}
 var c30Counts = []int{-1, 0, 1, 2, 10, 1 << 40}
-var c30IDs = []uuid.UUID{uuid.MustParse("00000000-0000-0000-0000-000000000001"), uuid.MustParse("6ba7b810-9dad-11d1-80b4-00c04fd430c8"), uuid.MustParse("ffffffff-ffff-ffff-ffff-ffffffffffff")}
+var c30IDs = []uuid.UUID{uuid.Nil, uuid.MustParse("00000000-0000-0000-0000-000000000001"), uuid.MustParse("6ba7b810-9dad-11d1-80b4-00c04fd430c8"), uuid.MustParse("ffffffff-ffff-ffff-ffff-ffffffffffff")}
 var c30Tags = [][]string{{}, {"x"}, {"x", "y,z"}, {"a\"b"}}
 var c30Ratios = []float64{0, 1.5, -2.25, 1e10}
 var c30Cols = []string{"Name", "Count", "Flag", "ID", "Ratio"}
